@@ -82,10 +82,33 @@ def _item(p, exc, index_of):
     return [p, sorted(_exc_key(x, index_of) for x in exc)]
 
 
+_PEAK = [0]
+
+
+def _counting_open(top):
+    """`open` for torf._stream: "at most cap + 1 files open at any time" is observed at the only moments the
+    number can grow — right after each successful open(), before the caller gets the handle"""
+    import builtins
+
+    def _open(*a, **k):
+        fh = builtins.open(*a, **k)
+        n = _nfd(top)
+        if n > _PEAK[0]:
+            _PEAK[0] = n
+        return fh
+    return _open
+
+
 def _do_op(tfs, op, top, index_of):
     """perform one operation; returns (result, max number of content fds seen while it ran)"""
+    res, peak = _do_op1(tfs, op, top, index_of)
+    return res, max(peak, _PEAK[0])
+
+
+def _do_op1(tfs, op, top, index_of):
     name, a = op[0], (op[1] if len(op) > 1 else None)
     peak = 0
+    _PEAK[0] = 0
     try:
         if name == 'iterFull':
             got = []
@@ -220,6 +243,7 @@ def _run_chunk(cases):
     fresh_cache = {}
     name = 'T'
     top = os.path.join(wd, name)
+    _stream.open = _counting_open(top)
     for c in cases:
         L, sizes = c['L'], c['sizes']
         single = c.get('single', False)
@@ -747,7 +771,7 @@ def run(ctx, drv):
         'SHA-1 is a parameter H of the model; the harness applies real hashlib.sha1 to the model pieces; '
         'a wrong stored hash is the bitwise complement of the right one',
         'pairwise distinct file paths (the handle table is keyed by path)',
-        'open files are observed through /proc/self/fd after each operation and after each item of an iteration',
+        'open files are observed through /proc/self/fd after each operation, after each item of an iteration and right after every open() made by torf._stream (the only moments the number can grow)',
         'the consumer of an abandoned iteration closes the generator (it.close(); del it); CPython generator semantics',
     ]
     cases = []
